@@ -227,24 +227,20 @@ def run(ctx, chk, tier="quick"):
         entry = "rise.find_rise_offsets" if label == "rise" else "recession.find_recession_offsets"
         okc = False
         desc = "no call"
-        for n in ast.walk(br):
-            if isinstance(n, ast.Call) and ctx.cg.resolve_callee(disp, n.func) == [entry]:
-                ef = ctx.func(entry)
-                pname = ef.params[1]
-                val = None
-                for k in n.keywords:
-                    if k.arg == pname:
-                        val = k.value
-                if val is None and len(n.args) > 1:
-                    val = n.args[1]
-                dest = args_attr(val) if val is not None else None
-                o = [x for x in opts.get(label, []) if x.dest == dest]
-                desc = "%s=%s; option %s" % (pname, ast.unparse(val) if val is not None else "default", o[0] if o else "missing")
-                okc = bool(o) and "-r" in o[0].flags and ast.unparse(o[0].kw.get("type", ast.Constant(None))) == "float"
-                # entry passes it on
-                inner = [c for c in ast.walk(ef.node) if isinstance(c, ast.Call) and ctx.cg.resolve_callee(ef, c.func) == [fq]]
-                passes = bool(inner) and any(isinstance(a, ast.Name) and a.id == pname for c in inner for a in list(c.args) + [k.value for k in c.keywords])
-                okc = okc and passes
+        from ..cli import entry_binding
+        ef = ctx.func(entry)
+        bind, n = entry_binding(ctx, disp, br, ef)
+        if bind is not None:
+            pname = ef.params[1]
+            val = bind.get(pname)
+            dest = args_attr(val) if val is not None else None
+            o = [x for x in opts.get(label, []) if x.dest == dest]
+            desc = "%s=%s; option %s" % (pname, ast.unparse(val) if val is not None else "default", o[0] if o else "missing")
+            okc = bool(o) and "-r" in o[0].flags and ast.unparse(o[0].kw.get("type", ast.Constant(None))) == "float"
+            # entry passes it on
+            inner = [c for c in ast.walk(ef.node) if isinstance(c, ast.Call) and ctx.cg.resolve_callee(ef, c.func) == [fq]]
+            passes = bool(inner) and any(isinstance(a, ast.Name) and a.id == pname for c in inner for a in list(c.args) + [k.value for k in c.keywords])
+            okc = okc and passes
         chk.ob("C09.O6", okc, where_of(disp, br), "%s: %s" % (label, desc), "-r (float) reaches the reference parameter",
                key="cli|%s|reference" % label, why="an unwired option silently uses the default origin")
 
